@@ -182,6 +182,7 @@ func (f *Facts) Proposer(e *Entry, slot common.Slot) {
 		x.proposers[uint64(slot)] = fmt.Sprintf("(%d,%d)", uint64(slot), uint64(p))
 	}
 }
+
 // Sync: the sync committee of the entry = current_sync_committee of the entry's STATE (the state of the block carried
 // to the entry's slot), as the p2p conditions are worded; never the EpochsContext cache the validators read.
 func (f *Facts) Sync(e *Entry) []common.ValidatorIndex {
